@@ -572,6 +572,29 @@ func init() {
 		fr.i.allocTrack = true
 		return int64(fr.i.allocEvents)
 	}
+	ext[symPkg+"Threads"] = func(fr *frame, a []value) value {
+		i := fr.i
+		if i.ps.noDecide {
+			i.unsupported("sym.Threads during setup")
+		}
+		i.threads = newThreadState(i.cint(a[0], "maxPreempt"))
+		return nil
+	}
+	ext[symPkg+"Go"] = func(fr *frame, a []value) value {
+		i := fr.i
+		if i.threads == nil {
+			i.unsupported("sym.Go without sym.Threads")
+		}
+		i.threads.spawn(i, fr, nil, a[0], nil)
+		return nil
+	}
+	ext[symPkg+"Join"] = func(fr *frame, a []value) value {
+		i := fr.i
+		if i.threads != nil {
+			i.threads.join(i)
+		}
+		return nil
+	}
 	ext[symPkg+"WouldBlock"] = func(fr *frame, a []value) (res value) {
 		i := fr.i
 		res = false
